@@ -241,7 +241,17 @@ def run(R):
                 rets = mirlib.returned_terms(cb)
                 okm = len(mg) == 1 and mentions_call(cb.origin(mg[0][1]['args'][0]), name='metadata_mut') and all(t_[0] == 'arg' for _, t_ in rets)
                 R.check(okm, 'C02.R5', 'stream-error-keeps-status+merges-headers', site(cb), 'map_err closure merges header metadata into the status and returns that status')
-        R.check(okm, 'C02.R5', 'stream-error-path', site(cs), 'error of try_next is mapped by a merging closure')
+        if not okm:
+            # spelled as a match: Err(mut status) => { status.metadata_mut().merge(parts); return Err(status) }
+            from_try_next_err = lambda t_: term_contains(t_, lambda x: x and x[0] == 'variant' and x[2] == 'Err' and term_contains(x, lambda y: is_call(y, name='try_next') or y == ('yield',) or (y and y[0] == 'yield')))
+            for mb_, mt_ in cs.calls(name='merge'):
+                recv = cs.origin(mt_['args'][0])
+                if not (mentions_call(recv, name='metadata_mut') and from_try_next_err(recv)):
+                    continue
+                rets = [(bb_, i_) for bb_, i_, p_, a_, ops_ in mirlib.aggregates(cs, 'result::Result', 'Err') if from_try_next_err(cs.origin(ops_[0])) and cs.dominates(mb_, bb_)]
+                okm = bool(rets)
+                R.check(okm, 'C02.R5', 'stream-error-keeps-status+merges-headers', site(cs, mb_), 'the Err arm of try_next merges the header metadata into the status and returns that status: %r' % okm)
+        R.check(okm, 'C02.R5', 'stream-error-path', site(cs), 'error of try_next is returned with the header metadata merged')
         ok_or = cs.calls(name='ok_or_else')
         okn = False
         for bb, t in ok_or:
@@ -249,10 +259,17 @@ def run(R):
             if clo[0] == 'agg' and 'def' in clo[1]:
                 cb = tonic.body(clo[1]['def'])
                 okn = len(cb.calls(pat='Status::internal')) == 1
+        if not okn:
+            for bb_, i_, p_, a_, ops_ in mirlib.aggregates(cs, 'result::Result', 'Err'):
+                if is_call(strip_refs(cs.origin(ops_[0])), pat='Status::internal'):
+                    g_ = cs.edge_guards(bb_)
+                    if any(tm[0] == 'discr' and term_contains(tm, lambda x: x and x[0] == 'variant' and x[2] == 'Ok') and vals == [0] for s_, vals, tm in g_):
+                        okn = True
         R.check(okn, 'C02.R5', 'no-message->internal', site(cs), 'None from try_next -> Status::internal')
         tr = cs.calls(name='trailers')
         mg = cs.calls(name='merge')
-        R.check(len(tr) == 1 and len(mg) == 1, 'C02.R5', 'trailers-merged', site(cs), 'trailers() sites %d, merge sites %d' % (len(tr), len(mg)))
+        mg = [(bb_, t_) for bb_, t_ in mg if term_contains(cs.origin(t_['args'][1]), lambda x: is_call(x, name='trailers') or (x and x[0] == 'yield')) and not mentions_call(cs.origin(t_['args'][0]), name='metadata_mut')]
+        R.check(len(tr) == 1 and len(mg) == 1, 'C02.R5', 'trailers-merged', site(cs), 'trailers() sites %d, merges of the trailers into the header metadata %d' % (len(tr), len(mg)))
         fp = cs.calls(name='from_parts')
         R.check(len(fp) == 1 and mg and cs.dominates(tr[0][0], fp[0][0]), 'C02.R5', 'trailers-before-response', site(cs), 'trailers are awaited before Response::from_parts')
         un = tonic.body('client::grpc::Grpc::<T>::unary::{closure#0}')
